@@ -40,7 +40,8 @@ What is proved here:
   `PROGRAM name statements END_PROGRAM` (no variable blocks; the statements above) back to exactly the library that was
   written — the programs in source order, each with its name and its statements; the whole input is consumed;
   `mirror_library_roundtrip_vars` adds a VAR block of elementary-typed variables to each program,
-  `mirror_library_roundtrip_pous` function blocks of the same shape, mixed with the programs in any order;
+  `mirror_library_roundtrip_pous` function blocks of the same shape and functions
+  `FUNCTION name : T statements END_FUNCTION` (elementary return type, no variable blocks), mixed with the programs in any order;
 
 The executable mirror of the whole grammar (`PlcModel/Parse/*.lean`) is tied to `parse_program` by
 the correspondence check (every fixture, every production of the reference grammar, every ordered
@@ -169,8 +170,8 @@ theorem mirror_library_roundtrip_vars (ps : List MX.AnyProg) (h : ∀ p ∈ ps, 
       some (.n "Library" [("elements", .l (ps.map fun p => Sx.t "ProgramDeclaration" [p.sx]))]) :=
   MX.library_reads_any ps h
 
-/-- … and for libraries that mix programs and function blocks (`FUNCTION_BLOCK name [VAR … END_VAR] statements
-END_FUNCTION_BLOCK`) in any order and number: `Parse.library` returns the declarations in source order, each of its
+/-- … and for libraries that mix programs, function blocks (`FUNCTION_BLOCK name [VAR … END_VAR] statements
+END_FUNCTION_BLOCK`) and functions (`FUNCTION name : T statements END_FUNCTION`) in any order and number: `Parse.library` returns the declarations in source order, each of its
 kind, nothing dropped, duplicated or reordered. -/
 theorem mirror_library_roundtrip_pous (ps : List MX.Pou) (h : ∀ p ∈ ps, p.WF) :
     Parse.library (ps.flatMap MX.Pou.toks) = some (.n "Library" [("elements", .l (ps.map MX.Pou.elem))]) :=
@@ -187,6 +188,14 @@ example : (MX.Prog.mk ⟨false, "Program", 0, 0, 0, 0, "PROGRAM".toList⟩ ⟨fa
               (.leaf ⟨false, "Identifier", 0, 0, 0, 0, ['c']⟩)) ⟨false, "Semicolon", 0, 0, 0, 0, [';']⟩ .nil)
     ⟨false, "EndProgram", 0, 0, 0, 0, "END_PROGRAM".toList⟩).WF :=
   ⟨rfl, rfl, rfl, ⟨⟨rfl, rfl, rfl⟩, rfl, trivial⟩, rfl⟩
+
+/-- non-vacuity: `FUNCTION f : INT f := c; END_FUNCTION` meets `Fn.WF` -/
+example : (MX.Fn.mk ⟨false, "Function", 0, 0, 0, 0, "FUNCTION".toList⟩ ⟨false, "Identifier", 0, 0, 0, 0, ['f']⟩
+    ⟨false, "Colon", 0, 0, 0, 0, [':']⟩ ⟨false, "Int", 0, 0, 0, 0, "INT".toList⟩ "INT"
+    (.cons (.assign ⟨false, "Identifier", 0, 0, 0, 0, ['f']⟩ ⟨false, "Assignment", 0, 0, 0, 0, [':', '=']⟩
+              (.leaf ⟨false, "Identifier", 0, 0, 0, 0, ['c']⟩)) ⟨false, "Semicolon", 0, 0, 0, 0, [';']⟩ .nil)
+    ⟨false, "EndFunction", 0, 0, 0, 0, "END_FUNCTION".toList⟩).WF :=
+  ⟨rfl, rfl, rfl, rfl, MX.elementary_int _ rfl, by decide, ⟨⟨rfl, rfl, rfl⟩, rfl, trivial⟩, rfl⟩
 
 /-! ### non-vacuity: concrete trees over the generated table's levels
 (`+`,`-` at level 5 and `*` at level 6).  The executable mirror itself is evaluated by the compiled
